@@ -50,6 +50,15 @@ def run_case(case):
                 out.append("EXC:" + type(e).__name__)
             if i % 7 == 0:
                 await asyncio.sleep(0.25)      # let metadata refresh (new shuffled order)
+            g = case.get("grow")
+            if g and i == g["after"]:
+                # the topic gains partitions while the producer runs; after the next metadata refresh the count the
+                # partitioner divides by is the new one
+                from simkit.cluster import PartitionLog
+                cur = len(net.topics["t"])
+                for q in range(cur, g["to"]):
+                    net.topics["t"][q] = PartitionLog("t", q, q % len(net.brokers))
+                await asyncio.sleep(0.7)
         if case.get("idempotent"):
             # the election completes: records queued for a leaderless partition are delivered to THAT partition
             for q in case.get("leaderless", []):
